@@ -433,9 +433,14 @@ theorem evalRoutes_catchAll (re : Regex) (req : Request) (hwf : req.wf = true) :
     first matching route - gives exactly what the VirtualService applicable to the addressed service
     says, the service's default route when none applies, and the passthrough route for an authority
     that names no service of the port.  `certVSHosts` (every VirtualService host is lower-case and names or
-    matches a service of the port; lower-case service hostnames; listener port other than 80) and
-    `certRegistry` (the context's registry is the mesh's) delimit the meshes `sidecarRDS` describes: outside
-    them the code builds further virtual hosts (`sidecarRDSFull`). -/
+    matches a service of the port; lower-case service hostnames; listener port other than 80; the outbound
+    traffic policy in force - a field of the mesh as the proxy sees it - is plain ALLOW_ANY; no service is a
+    `Resolution: Alias` or headless service; HTTP ports only) and `certRegistry` (the context's registry is the
+    mesh's) are NOT used by the proof: they delimit the meshes on which the simple model `sidecarRDS` is claimed
+    to describe the code.  Outside them the code builds other virtual hosts (`sidecarRDSFull`: REGISTRY_ONLY
+    answers 502 where this theorem says passthrough, an ExternalName service without its concrete service has
+    no virtual host, ...).  That `sidecarRDS = sidecarRDSFull` inside them is checked by the driver on EVERY
+    generated build where the hypotheses hold (evidence counters), not proved. -/
 theorem sidecar_rds_correct (re : Regex) (hre : DotStar re) (c : Ctx) (m : Mesh) (req : Request)
     (hcert : rdsCert c m = true) (_hvs : certVSHosts c m = true) (_hreg : certRegistry c m = true)
     (hside : meshSide re c m req = true) :
